@@ -7,7 +7,9 @@ for d in sorted(Path("/verif/seeded").iterdir()):
     meta = json.loads((d / "meta.json").read_text())
     title = (d / "notes.md").read_text().splitlines()[0].lstrip("# ").strip() if (d / "notes.md").exists() else ""
     title = title.split("--", 1)[-1].split("—", 1)[-1].split(" - ", 1)[-1].strip()
-    if meta.get("neutralised_by"):
+    if meta.get("outside_property_as_read"):
+        out = "not flagged — outside the property as the check reads it (see below)"
+    elif meta.get("neutralised_by"):
         out = "no longer breaks the property (repair in §12.2); caught on the tree before the repair"
     else:
         own = [r for r in meta.get("runs", []) if r["check"] == meta["property"]]
